@@ -255,9 +255,9 @@ def rollout(tier: str, prop: str) -> list[dict]:
     classic = [
         dict(env="CartPole", L=400, eager=True),
         dict(env="CartPole", L=300, kwargs={"tsit5": True}, stack=[["TimeLimit", 25]]),
-        dict(env="MountainCar", L=600, stack=[TL]),
-        dict(env="ContinuousMountainCar", L=600, stack=[["TimeLimit", 200], ["RescaleAction", -2.0, 2.0]], eager=True),
-        dict(env="Acrobot", L=400, stack=[["TimeLimit", 100]]),
+        dict(env="MountainCar", L=900, stack=[["TimeLimit", 300]]),
+        dict(env="ContinuousMountainCar", L=900, stack=[["TimeLimit", 400], ["RescaleAction", -2.0, 2.0]], eager=True),
+        dict(env="Acrobot", L=600, stack=[["TimeLimit", 300]]),
         dict(env="Pendulum", L=500, stack=[["TimeLimit", 50], ["ClipAction"]]),
         dict(env="Pendulum", L=300, kwargs={"tsit5": True}, stack=[["ClipObservation"], ["TimeLimit", 40], ["ClipReward", -1.0, 1.0]]),
         dict(env="Acrobot", L=300, kwargs={"tsit5": True}),
